@@ -509,18 +509,27 @@ Fixpoint last_ok (cs : list cont) : bool :=
   | c :: r => match r with [] => negb (is_header (c_text c)) | _ => last_ok r end
   end.
 
-Definition wf_ldef (d : ldef) : bool :=
+(* `guard` = false leaves out the one condition that excludes finding F34 (last_ok); it is
+   only used to state that the condition is necessary (C08 continuation_header_refuted) *)
+Definition wf_ldef_g (guard : bool) (d : ldef) : bool :=
   forallb wf_skip (d_gap d) && blankb (d_ind d) && blankb (d_ws1 d) && blankb (d_ws2 d)
   && blankb (d_trail d) && trimmedb (d_first d)
   && match d_more d with
      | [] => true
-     | _ => negb (is_nil (d_first d)) && forallb wf_cont (d_more d) && last_ok (d_more d)
+     | _ => negb (is_nil (d_first d)) && forallb wf_cont (d_more d)
+            && (negb guard || last_ok (d_more d))
      end.
 
-Definition wf_lsec (s : lsec) : bool :=
-  forallb wf_skip (s_gap s) && blankb (s_ind s) && blankb (s_trail s) && forallb wf_ldef (s_defs s).
+Definition wf_lsec_g (guard : bool) (s : lsec) : bool :=
+  forallb wf_skip (s_gap s) && blankb (s_ind s) && blankb (s_trail s)
+  && forallb (wf_ldef_g guard) (s_defs s).
 
-Definition wf_layout (l : ldoc) : bool := forallb wf_lsec (l_secs l) && forallb wf_skip (l_tail l).
+Definition wf_layout_g (guard : bool) (l : ldoc) : bool :=
+  forallb (wf_lsec_g guard) (l_secs l) && forallb wf_skip (l_tail l).
+
+Definition wf_ldef := wf_ldef_g true.
+Definition wf_lsec := wf_lsec_g true.
+Definition wf_layout := wf_layout_g true.
 
 Definition wf_ldoc (l : ldoc) : bool := wf_doc (erase l) && wf_layout l.
 
